@@ -1253,6 +1253,8 @@ def trusted_note(key):
         return py2lean_sweep.trusted_note(key)
     if key in MATCHING_KEYS:                     # the matching engine (py2lean_matching.py)
         return py2lean_matching.trusted_note(key)
+    if key in IMAGE_KEYS:                        # the image engine (py2lean_image.py)
+        return py2lean_image.trusted_note(key)
     if key in STMT_KEYS:
         return ("harness/translator/py2lean.py + py2lean_stmt.py (statement-level ast translation of the anchored code of %s into "
                 "Generated/%s, proved equal to the hand-written model on every run; its TARGETS table -- binders, the attribute -> "
@@ -1284,6 +1286,8 @@ def manifest_note(key):
         return py2lean_sweep.manifest_note(key)
     if key in MATCHING_KEYS:                     # the matching engine (py2lean_matching.py)
         return py2lean_matching.manifest_note(key)
+    if key in IMAGE_KEYS:                        # the image engine (py2lean_image.py)
+        return py2lean_image.manifest_note(key)
     if key in STMT_KEYS:
         for cfg in py2lean_stmt.TARGETS:
             if cfg["file"] == key:
@@ -1320,6 +1324,8 @@ def prop_files(key):
     """the generated file of `key` preceded by the hand-written library / bridging lemma files it imports (for PROP_FILES)"""
     if key in MATCHING_KEYS:                     # the matching engine (py2lean_matching.py)
         return list(py2lean_matching.BRIDGES[key]) + [prop_file(key)]
+    if key in IMAGE_KEYS:                        # the image engine (py2lean_image.py)
+        return list(py2lean_image.BRIDGES.get(key, [])) + [prop_file(key)]
     return list(py2lean_stmt.BRIDGES.get(key, py2lean_sweep.BRIDGES.get(key, []))) + [prop_file(key)]
 
 
@@ -1643,7 +1649,8 @@ def all_target_functions(path):
     return ([c["func"] for c in TARGETS if FILES[c["file"]][0] == path]
             + [c["func"] for c in py2lean_stmt.TARGETS if c.get("pyfile", FILES[c["file"]][0]) == path]
             + [c["func"] for c in py2lean_sweep.TARGETS if FILES[c["file"]][0] == path]
-            + [c["func"] for c in py2lean_matching.TARGETS if FILES[c["file"]][0] == path])
+            + [c["func"] for c in py2lean_matching.TARGETS if FILES[c["file"]][0] == path]
+            + [c["func"] for c in py2lean_image.TARGETS + [py2lean_image.PIN_TARGET] if FILES[c["file"]][0] == path])
 
 
 def not_translated_comment(items):
@@ -1926,6 +1933,8 @@ def render_file(key, root):
         return py2lean_sweep.render_file(key, root)
     if key in MATCHING_KEYS:                     # the matching engine (py2lean_matching.py)
         return py2lean_matching.render_file(key, root)
+    if key in IMAGE_KEYS:                        # the image engine (py2lean_image.py)
+        return py2lean_image.render_file(key, root)
     py, out, ns, model, prop = FILES[key]
     o, info = [header(key)], {"source": py, "output": "/".join([GEN.replace(os.sep, "/"), out]), "functions": {}}
     src, fns, file_err, tree = "", {}, None, None
@@ -2179,6 +2188,12 @@ from . import py2lean_matching  # noqa: E402
 for _k, _v in getattr(py2lean_matching, "FILES", {}).items():   # (empty when that module is being imported first: it registers itself)
     FILES[_k] = _v[:5]
     MATCHING_KEYS.add(_k)
+# the image engine (_transform, PersistenceImager.transform / fit_transform) registers its file the same way
+IMAGE_KEYS = set()
+from . import py2lean_image  # noqa: E402
+for _k, _v in py2lean_image.FILES.items():
+    FILES[_k] = _v[:5]
+    IMAGE_KEYS.add(_k)
 
 
 if __name__ == "__main__":
